@@ -3316,3 +3316,131 @@ Proof.
     apply nth_map_length_le.
   - rewrite band_widths_chain. exact HD.
 Qed.
+
+(* ============================================================================================== *)
+(* 17. horizontal round trip for trees of height 2 with three or more children *)
+
+Section StarRoundTrip.
+  Variables (st : hstyle) (inter : bool).
+  Hypothesis Hd : hglyphs_distinct (glyphs_of_hs st) = true.
+  Let b := hs_branch st.
+  Let gl := glyphs_of_hs st.
+
+  Lemma star_facts :
+    hs_branch st <> 32%N /\ hs_first st <> 32%N /\ N.eqb (hs_subseq st) (hs_last st) = false
+    /\ N.eqb (hs_first st) 32%N = false /\ N.eqb (hs_subseq st) 32%N = false
+    /\ N.eqb (hs_last st) 32%N = false /\ N.eqb (hs_first st) (hs_last st) = false.
+  Proof.
+    unfold hglyphs_distinct in Hd. cbn [glyphs_of_hs g_first g_last g_stem g_subseq g_branch g_split g_middle] in Hd.
+    repeat (apply andb_true_iff in Hd as [Hd ?]).
+    repeat match goal with H : negb _ = true |- _ => apply negb_true_iff in H end.
+    repeat split; try assumption.
+    - intros E. rewrite E in *. discriminate.
+    - intros E. rewrite E in *. discriminate.
+    - rewrite N.eqb_sym. assumption.
+  Qed.
+
+  (* k children, k >= 3; the parent's row *)
+  Variable k : nat.
+  Hypothesis Hk : 3 <= k.
+  Let mid := (0 + (k + 0 - 1)) / 2.
+
+  Lemma mid_bounds_star : 0 < mid /\ mid < k - 1.
+  Proof. unfold mid. destruct (mid_bounds 0 (k + 0 - 1)) as [A B]; [lia|]. lia. Qed.
+
+  Definition G (i : nat) : N := conn st (seq 0 k) mid i.
+
+  Lemma seq_hd_last : hd 0 (seq 0 k) = 0 /\ List.last (seq 0 k) 0 = k - 1.
+  Proof.
+    split; [destruct k; [lia|reflexivity]|].
+    destruct k as [|k']; [lia|]. rewrite seq_S, last_last. cbn. lia.
+  Qed.
+
+  Lemma memb_seq i : i < k -> memb i (seq 0 k) = true.
+  Proof. intros H. apply memb_true. apply in_seq. lia. Qed.
+
+  Lemma G_first : G 0 = hs_first st.
+  Proof.
+    destruct mid_bounds_star as [M1 M2]. destruct seq_hd_last as [H1 H2].
+    unfold G, conn. rewrite memb_seq by lia. rewrite H1.
+    replace (Nat.eqb 0 mid) with false by (symmetry; apply Nat.eqb_neq; lia). reflexivity.
+  Qed.
+  Lemma G_mid : G mid = hs_middle st.
+  Proof.
+    destruct mid_bounds_star as [M1 M2].
+    unfold G, conn. rewrite memb_seq by lia. rewrite Nat.eqb_refl.
+    destruct k as [|[|[|k']]]; try lia. reflexivity.
+  Qed.
+  Lemma G_last : G (k - 1) = hs_last st.
+  Proof.
+    destruct mid_bounds_star as [M1 M2]. destruct seq_hd_last as [H1 H2].
+    unfold G, conn. rewrite memb_seq by lia. rewrite H1, H2.
+    replace (Nat.eqb (k - 1) mid) with false by (symmetry; apply Nat.eqb_neq; lia).
+    replace (Nat.eqb (k - 1) 0) with false by (symmetry; apply Nat.eqb_neq; lia).
+    rewrite Nat.eqb_refl. reflexivity.
+  Qed.
+  Lemma G_other i : 0 < i -> i < k - 1 -> i <> mid -> G i = hs_subseq st.
+  Proof.
+    intros A B C. destruct seq_hd_last as [H1 H2].
+    unfold G, conn. rewrite memb_seq by lia. rewrite H1, H2.
+    replace (Nat.eqb i mid) with false by (symmetry; apply Nat.eqb_neq; lia).
+    replace (Nat.eqb i 0) with false by (symmetry; apply Nat.eqb_neq; lia).
+    replace (Nat.eqb i (k - 1)) with false by (symmetry; apply Nat.eqb_neq; lia). reflexivity.
+  Qed.
+
+  (* ---- the connector column of the root ---- *)
+  Variable rootn : str.              (* the name the root cell decodes to *)
+  Definition c0 (i : nat) : hcell := if Nat.eqb i mid then HInt rootn (G i) else HPad (G i).
+
+  Fixpoint col0_from (i n : nat) : list (option hcell) :=
+    match n with 0 => [] | S n' => Some (c0 i) :: col0_from (S i) n' end.
+
+  Definition cur_at (i : nat) : option hrun :=
+    match i with
+    | 0 => None
+    | _ => Some (HR None (if Nat.ltb mid i then Some mid else None) (seq 0 i))
+    end.
+
+  Lemma scan_star : forall n i,
+    0 < n -> i + n = k ->
+    h_scan gl None i (col0_from i n) (repeat true n) (cur_at i) = Some [(mid, seq 0 k)].
+  Proof.
+    destruct star_facts as [F1 [F2 [F3 [F4 [F5 [F6 F7]]]]]]. destruct mid_bounds_star as [M1 M2].
+    induction n as [|n IH]; intros i Hn Hi; [lia|].
+    cbn [col0_from repeat]. unfold c0 at 1.
+    destruct (Nat.eq_dec i 0) as [->|Hi0].
+    - (* first row: opens the connector *)
+      replace (Nat.eqb 0 mid) with false by (symmetry; apply Nat.eqb_neq; lia).
+      rewrite G_first. cbn [cur_at h_scan]. rewrite F4. cbn [g_first gl glyphs_of_hs]. rewrite N.eqb_refl. cbn [andb].
+      specialize (IH 1 ltac:(lia) ltac:(lia)). cbn [cur_at] in IH.
+      replace (Nat.ltb mid 1) with false in IH by (symmetry; apply Nat.ltb_ge; lia). exact IH.
+    - destruct i as [|i']; [contradiction|].
+      cbn [cur_at].
+      destruct (Nat.eq_dec (S i') mid) as [Em|Em].
+      + (* the parent's row, which is also a child's row *)
+        specialize (IH (S (S i')) ltac:(lia) ltac:(lia)). cbn [cur_at] in IH.
+        rewrite Em in *.
+        rewrite Nat.eqb_refl, G_mid.
+        replace (Nat.ltb mid mid) with false by (symmetry; apply Nat.ltb_ge; lia).
+        cbn [h_scan hr_par hr_rem hr_kids]. cbn [g_middle gl glyphs_of_hs]. rewrite N.eqb_refl. cbn [andb negb option_map].
+        replace (Nat.ltb mid (S mid)) with true in IH by (symmetry; apply Nat.ltb_lt; lia).
+        rewrite seq_S in IH. cbn [Nat.add] in IH. exact IH.
+      + replace (Nat.eqb (S i') mid) with false by (symmetry; apply Nat.eqb_neq; exact Em).
+        destruct (Nat.eq_dec (S i') (k - 1)) as [El|El].
+        * (* last row: closes *)
+          rewrite El, G_last. replace (Nat.ltb mid (k - 1)) with true by (symmetry; apply Nat.ltb_lt; lia).
+          cbn [h_scan hr_par hr_rem hr_kids]. cbn [g_last gl glyphs_of_hs]. rewrite N.eqb_refl.
+          assert (n = 0) by lia. subst n. cbn [col0_from repeat h_scan].
+          replace (seq 0 (k - 1) ++ [k - 1]) with (seq 0 k); [reflexivity|].
+          replace k with (S (k - 1)) at 1 by lia. rewrite seq_S. reflexivity.
+        * (* another child *)
+          rewrite (G_other (S i')) by lia.
+          cbn [h_scan hr_par hr_rem hr_kids]. cbn [g_last g_subseq gl glyphs_of_hs]. rewrite F3, N.eqb_refl.
+          cbn [option_map].
+          specialize (IH (S (S i')) ltac:(lia) ltac:(lia)). cbn [cur_at] in IH. rewrite seq_S in IH. cbn [Nat.add] in IH.
+          replace (Nat.ltb mid (S (S i'))) with (Nat.ltb mid (S i')) in IH; [exact IH|].
+          destruct (Nat.ltb mid (S i')) eqn:E1.
+          -- apply Nat.ltb_lt in E1. symmetry. apply Nat.ltb_lt. lia.
+          -- apply Nat.ltb_ge in E1. symmetry. apply Nat.ltb_ge. lia.
+  Qed.
+End StarRoundTrip.
